@@ -350,6 +350,28 @@ def convention_case(run, spec, others, fname, env, cart_perm, sph_pat):
     return True
 
 
+def same_l_conventions_case(run, rng, quick=True, names=None):
+    """two shells of the *same* angular momentum in one basis that declare different component orders (bases from two loads with
+    different conventions combined): each shell's own order applies, also inside one electron-repulsion quartet"""
+    ok = True
+    for k, l in enumerate((2, 1) if quick else (2, 1, 2, 3)):
+        cs = []
+        ncart = (l + 1) * (l + 2) // 2
+        pm = rng.sample(range(ncart), ncart)
+        if pm == list(range(ncart)):
+            pm = pm[::-1]
+        spec = rand_shell(rng, l, cs, sph=False, nprim=1, nseg=1, exp_lo=0.3, exp_hi=4.0).copy(via_update=False)
+        twin = rand_shell(rng, l, [], sph=bool(k % 2 == 1 and l > 1), nprim=1, nseg=1, exp_lo=0.3, exp_hi=4.0).copy(
+            center=[core.snap(rng.uniform(-1.2, 1.2), 8) for _ in range(3)], via_update=False)
+        s0 = rand_shell(rng, 0, [], nprim=1, nseg=1, exp_lo=0.3, exp_hi=4.0).copy(center=[core.snap(rng.uniform(-1.2, 1.2), 8) for _ in range(3)])
+        others = [s0, twin] if k % 2 == 0 else [twin, s0]
+        env = pf.default_env(rng, [spec] + others)
+        for fname in (names or (["eri_chemist"] if l == 2 and not quick or l <= 2 else []) + ["overlap", "angular_momentum"]):
+            ok &= convention_case(run, spec, others, fname, env, list(pm), None)
+        run.count("two shells of one l with different declared Cartesian orders")
+    return ok
+
+
 def check(run):
     rng = run.rng
     quick = run.tier == "quick"
@@ -462,6 +484,7 @@ def check(run):
     for k_ in range(3 if quick else 12):
         interaction_case(run, rng, k_)
     degenerate_sizes_case(run, rng)
+    same_l_conventions_case(run, rng, quick)
     if not quick:
         cs = []
         spec = rand_shell(rng, 1, cs, sph=True, nprim=1, nseg=1, exp_lo=0.2, exp_hi=5.0)
